@@ -1353,7 +1353,9 @@ func main() {
 			b := 1
 			if tier == "thorough" {
 				b = 3
-				if len(sc.Beh) >= 3 {
+				if sc.Second {
+					b = 2 // two concurrent connections: the third deviation does not complete inside the per-scenario deadline
+				} else if len(sc.Beh) >= 3 {
 					b = 1 // the length-3 sequences are many (17^3 and their pipelined variants): deviation bound 1
 				} else if added(sc) {
 					b = 2 // the audit's scenarios (about half as many again): one deviation less than the original ones
@@ -1488,7 +1490,7 @@ func main() {
 	rep.Coverage["close_in_flight"] = fmt.Sprintf("%d scenarios in which Proxy.Close() is called (on a thread of its own) by the request modifier of the last exchange of the only connection, which returns once Proxy.Closing() reports true: that exchange x {pass, reqerr, reserr, skip, rterr, mut} alone / after each of {pass, reqerr, reserr, skip, rterr, mut} on the same connection (also pipelined); a blind CONNECT (direct / downstream proxy / dial or downstream failure); the last of one or two exchanges inside an intercepted tunnel (plaintext; TLS: one); the whole oracle applies to that exchange unchanged, and Close() must have returned at the end", nClosing)
 	rep.Coverage["scripted_random_source"] = fmt.Sprintf("%d scenarios in which crypto/rand.Reader is a scripted reader for the execution: all draws pairwise different 8-byte values that differ in byte p only (p = 0..7: common prefix of p and common suffix of 7-p bytes) x differing in the low bits / in the high nibble only x common byte value; shapes: two concurrent plain connections with two exchanges each plus a later one, two intercepted plaintext tunnels, a blind tunnel beside a plain connection and a later one (thorough: also three exchanges on one connection, pipelined beside a second connection, tunnel with two inner exchanges); oracle: all context ids of the execution and the session ids of different connections pairwise different", nDraws)
 	rep.Coverage["request_spellings"] = fmt.Sprintf("%d spellings = target form %v x Host header %v x version %v; each x 7 behaviours (pass, route = the request modifier names the host of a request that names none, skip, reqerr, route+reserr, hijack-req, route+hijack-res) as a single exchange, keep-alive spellings followed by every spelling on the same connection, every spelling as the first request inside an intercepted tunnel", len(allSpellings()), spellForms, spellHosts, spellVersions)
-	rep.Coverage["bounds"] = fmt.Sprintf("%d scenarios (%d of them from the audit, AUDIT.md): plain mode with all behaviour sequences (30 behaviours incl. combinations: errors with one- and multi-line messages, two errors on one response, skip round trip combined with the other context marks in both orders, a RoundTripper answering on a clone of the request, modifiers that change the messages, requests with a body that a skipped or failed round trip leaves unread, hijackers whose modifier also fails, clients that close behind their request; the eleven newest paired with the eight basic ones) up to length %d, blind CONNECT x 16 behaviours (direct / through a downstream proxy), MITM with plaintext / TLS inside x CONNECT behaviours x inner behaviours; optional second concurrent connection (plain pass, or with behaviours / an intercepted tunnel of its own), optional later connection after all others have ended, pipelining (also of a request behind the hijacked one); %d scenarios over the spelling of the request (target form x Host header presence x protocol version, incl. requests that name no host and that only a request modifier makes routable); every schedule with <= %d deviations (one less for TLS scenarios; sequences of three exchanges: <= 1; thorough, the audit's scenarios: <= 2)", len(scen), nAdded, map[string]int{"quick": 2, "thorough": 3}[tier], nSpelled, map[string]int{"quick": 1, "thorough": 3}[tier])
+	rep.Coverage["bounds"] = fmt.Sprintf("%d scenarios (%d of them from the audit, AUDIT.md): plain mode with all behaviour sequences (30 behaviours incl. combinations: errors with one- and multi-line messages, two errors on one response, skip round trip combined with the other context marks in both orders, a RoundTripper answering on a clone of the request, modifiers that change the messages, requests with a body that a skipped or failed round trip leaves unread, hijackers whose modifier also fails, clients that close behind their request; the eleven newest paired with the eight basic ones) up to length %d, blind CONNECT x 16 behaviours (direct / through a downstream proxy), MITM with plaintext / TLS inside x CONNECT behaviours x inner behaviours; optional second concurrent connection (plain pass, or with behaviours / an intercepted tunnel of its own), optional later connection after all others have ended, pipelining (also of a request behind the hijacked one); %d scenarios over the spelling of the request (target form x Host header presence x protocol version, incl. requests that name no host and that only a request modifier makes routable); every schedule with <= %d deviations (one less for TLS scenarios; sequences of three exchanges: <= 1; thorough, the audit's scenarios and scenarios with a second concurrent connection: <= 2)", len(scen), nAdded, map[string]int{"quick": 2, "thorough": 3}[tier], nSpelled, map[string]int{"quick": 1, "thorough": 3}[tier])
 	rep.Coverage["bounds"] = fmt.Sprint(rep.Coverage["bounds"]) + fmt.Sprintf("; %d scenarios in which the scenario owns the proxy's random source (pairwise different 8-byte draws differing in one byte, every position, low bits / high nibble)", nDraws)
 	rep.Coverage["explanation"] = "each execution runs the real proxy.go/context.go over simnet under the gosim scheduler with recording modifiers; the clause that no context remains retrievable is judged through the public API (martian.NewContext on every request the modifiers saw)"
 	rep.Assumptions = []string{"round trips go through a synchronous harness RoundTripper (which validates header fields like http.Transport)", "TLS inside the tunnel uses crypto/tls unmodified on simnet connections", "unsynchronised accesses (context/session id generation, context table) are covered by the auxiliary free-running -race pass (sampling)"}
